@@ -242,6 +242,37 @@ func C14Cases(p *spec.Program, cfgs []spec.Config, seed uint64, tier string, nSc
 		ref.Params = append(ref.Params, junk...)
 		ref.Sim = &Schedule{MapMode: "identity", ClockEpoch: 1_000_000_000, ClockStepNs: 1000}
 		ref.Note = "reference: identity schedule, canonical config order, unchunked stdin"
+		// history independence: the same request after OTHER requests ran in the same world (same TMPDIR,
+		// HOME, cache directories, working directory) — requests that differ in one option only
+		if ci < 3 {
+			var before []RunSpec
+			for vi, mut := range []func(c *spec.Config){
+				func(c *spec.Config) { c.TargetPackageName = "otherpkg" },
+				func(c *spec.Config) { c.DefaultPackageName = "example.com/elsewhere/types" },
+				func(c *spec.Config) { c.Sort = !c.Sort },
+				func(c *spec.Config) { c.UseStateForUnknownByDefault = !c.UseStateForUnknownByDefault },
+				func(c *spec.Config) {
+					if len(c.ExcludeFields) > 1 {
+						c.ExcludeFields = c.ExcludeFields[1:]
+					}
+				},
+			} {
+				o := cfg.Clone()
+				mut(&o)
+				b := runFrom(o.Render(split, nil))
+				b.Params = append(b.Params, junk...)
+				b.Note = fmt.Sprintf("earlier request %d: one option changed", vi)
+				before = append(before, b)
+			}
+			run := runFrom(cfg.Render(split, nil))
+			run.Params = append(run.Params, junk...)
+			run.Sim = &Schedule{MapMode: "identity", ClockEpoch: 1_000_000_000, ClockStepNs: 1000}
+			run.Before = before
+			run.Note = "the reference request after five other requests in the same world"
+			refc := ref
+			cases = append(cases, &Case{Property: "C14", Clause: fmt.Sprintf("history-independent/cfg%d", ci), Seed: seed, Tier: tier, Program: p,
+				Ref: &refc, Run: run, Expect: Expect{Kind: "identical-stdout"}})
+		}
 		for i := 0; i < nSched; i++ {
 			rr := r.Fork()
 			var run RunSpec
